@@ -2,6 +2,7 @@
 //   xls  SHEETS NAMES XTIS HEX     (HEX = CellParsedFormula: cce + rgce)
 //   xls@R:C SHEETS NAMES XTIS HEX  the same for a cell (R, C) using a shared formula (base of PtgRefN / PtgAreaN)
 //   xlsb SHEETS NAMES HEX          (HEX = rgce)
+//   xlsb@R:C SHEETS NAMES HEX      the same for a cell (R, C) using a shared formula
 // SHEETS / NAMES: comma-separated hex of UTF-8 names ("-" = empty list, "." = empty name);
 // XTIS: sup:first:last,… (raw u16; first/last are reinterpreted as i16), "-" = none.
 use crate::util::{hexstr, unhex};
@@ -51,10 +52,14 @@ pub fn run(args: &[&str]) -> String {
             };
             out(xls::parse_formula_at(&unhex(h), &sheets, &nms, &xtis, base))
         }
-        ["xlsb", sh, nm, h] => {
+        [fmt, sh, nm, h] if *fmt == "xlsb" || fmt.starts_with("xlsb@") => {
+            let base = fmt.strip_prefix("xlsb@").map(|b| {
+                let p: Vec<u32> = b.split(':').map(|x| x.parse().unwrap()).collect();
+                (p[0], p[1])
+            });
             let sheets = names(sh);
             let nms: Vec<(String, String)> = names(nm).into_iter().map(|n| (n, String::new())).collect();
-            out(xlsb::parse_formula(&unhex(h), &sheets, &nms))
+            out(xlsb::parse_formula_at(&unhex(h), &sheets, &nms, base))
         }
         _ => "bad-args".to_string(),
     }
